@@ -726,6 +726,7 @@ let dispatch_case (toks : string list) : string =
     if int_of_string shut >= 0 then Printf.sprintf "M ok=* bad=0 short=0 shutdown=%d threads_left=%d" ended (1 - ended)
     else Printf.sprintf "M ok=%d bad=0 short=0 shutdown=%d threads_left=%d" !ok ended (1 - ended)
   | [ "R"; _workers; asks ] -> Printf.sprintf "R got=%s lost=0" asks
+  | [ "R2"; _workers; rounds ] -> Printf.sprintf "R2 both=%s lost=0" rounds
   | [ "B"; _workers ] ->
     (* the loop of a blocking serve(): events, then shutdown() from the other thread, the poll returns: serve() returns *)
     let h = [ M.SOther; M.SPollReturn; M.SOther; M.SPollReturn; M.SStore; M.SNotify; M.SPollReturn ] in
